@@ -53,6 +53,21 @@ def make(rng, index, n_entries=None, volumes=None, names=None, dates=None,
         if rng.random() < 0.1:
             L.add({'p': t['rel'] + '/' + rng.choice(['metadata', '.DS_Store', 'expunged']),
                    't': rng.choice(['f', 'd'])})
+        elif rng.random() < 0.08:
+            # what gvfs keeps next to files/ and info/: a directory of items it
+            # could not delete - with content, or (hostile) a link to elsewhere.
+            # Not trash-cli's business: never to be touched
+            ex = t['rel'] + '/expunged'
+            if rng.random() < 0.5:
+                L.add({'p': ex, 't': 'd', 'm': 0o700})
+                L.add({'p': ex + '/1234567', 't': 'd'})
+                L.add({'p': ex + '/1234567/leftover', 't': 'f', 'c': 'expunged leftover'})
+                L.add({'p': ex + '/item', 't': 'f', 'c': 'expunged item'})
+            else:
+                tgt = (L.home or '') + '/kept-elsewhere-%d' % index
+                L.add({'p': tgt, 't': 'd'})
+                L.add({'p': tgt + '/precious', 't': 'f', 'c': 'precious %d' % index})
+                L.add({'p': ex, 't': 'l', 'to': '@/' + tgt})
     if n_entries is None:
         n_entries = rng.randint(1, 8)
     entries = []
